@@ -47,6 +47,7 @@ colsel = z3.Function('colsel', Mat, I, I, Mat)       # A[:, j::n]
 cmulR = z3.Function('cmulR', Core, Mat, Core)        # np.einsum('ijq,ql', G, U)  (core times matrix on the right bond)
 fro = z3.Function('fro', Core, R)                    # np.linalg.norm(G)  (Frobenius norm of a core)
 foldLC = z3.Function('foldLC', Mat, I, I, Core)      # A.reshape(r1, n, cols(A))  (C order: a row permutation of foldL)
+rmul = z3.Function('rmul', R, R, R)                  # product of two reals, kept abstract inside e-matching proofs (unit / zero laws only)
 sc = z3.Function('sc', R, Mat)                       # the 1 x 1 matrix [[x]]
 onesc = z3.Function('onesc', I, I, I, Core)           # np.ones([a, b, c])
 cset = z3.Function('cset', Core, I, R, Core)          # G with G[0, j, 0] = x   (for cores with r1 = r2 = 1)
@@ -72,7 +73,7 @@ a_, b_, c_, e_ = z3.Consts('a_ b_ c_ e_', Mat)
 P_, Q_ = z3.Consts('P_ Q_', Mat)
 G_, H_ = z3.Consts('G_ H_', Core)
 m_, n_, k_, j_, p_, q_ = z3.Ints('m_ n_ k_ j_ p_ q_')
-x_, y_ = z3.Reals('x_ y_')
+x_, y_, z_ = z3.Reals('x_ y_ z_')
 Y_ = z3.Const('Y_', TT)
 ix_ = z3.Const('ix_', IDX)
 
@@ -203,8 +204,10 @@ GROUPS['kron'] = [
 # ---- rank-one cores, element by element (1 x 1 slices)
 GROUPS['elem'] = [
     A([x_], z3.And(rows(sc(x_)) == 1, cols(sc(x_)) == 1, ent(sc(x_), 0, 0) == x_), [sc(x_)]),
-    A([x_, y_], mm(sc(x_), sc(y_)) == sc(x_ * y_), [mm(sc(x_), sc(y_))]),
-    A([x_, y_], smul(x_, sc(y_)) == sc(x_ * y_), [smul(x_, sc(y_))]),
+    A([x_, y_], mm(sc(x_), sc(y_)) == sc(rmul(x_, y_)), [mm(sc(x_), sc(y_))]),
+    A([x_, y_], smul(x_, sc(y_)) == sc(rmul(x_, y_)), [smul(x_, sc(y_))]),
+    A([x_], z3.And(rmul(x_, 0) == 0, rmul(0, x_) == 0, rmul(x_, 1) == x_, rmul(1, x_) == x_),
+      [rmul(x_, 0), rmul(0, x_), rmul(x_, 1), rmul(1, x_)]),
     zeros(1, 1) == sc(0),
     A([m_, n_, k_], z3.And(d0(onesc(m_, n_, k_)) == m_, d1(onesc(m_, n_, k_)) == n_, d2(onesc(m_, n_, k_)) == k_), [onesc(m_, n_, k_)]),
     A([n_, j_], sl(onesc(1, n_, 1), j_) == sc(1), [sl(onesc(1, n_, 1), j_)]),
